@@ -28,7 +28,7 @@ RULE = (
     'complete Cartesian products: (certification set x altitude x Mach x scale) with the whole '
     'fuel-flow alphabet (every branch point and +-1 ulp) evaluated as one vector per case; ISA altitude '
     'alphabet x call form; smoke-number^4 x engine type x bypass ratio; sulfur x yield; FOA3 thrust x HC; '
-    'MEEM engine variant x altitude x Mach x scale; all 75 relative orders (with ties) of the four calibration flows; ordered pairs of certification sets x altitude pairs evaluated on ONE set of argument objects refilled in place four times; every SCOPE11 case '
+    'MEEM engine variant x altitude x Mach x scale; all 75 relative orders (with ties) of the four calibration flows; every optional parameter of the FFM2 correction (omitted / default / two other values each, keyword and positional); ordered pairs of certification sets x altitude pairs evaluated on ONE set of argument objects refilled in place four times; every SCOPE11 case '
     'also runs a fixed call sequence (five short-lived argument objects, then one mutable object edited in place four times). A case is non-trivial when at least one value was '
     'compared with the reference (or a documented refusal was observed); distinct = distinct case'
 )
@@ -199,6 +199,25 @@ ORDER_VALUES = [0.11, 0.343, 1.031, 1.293]
 FLOW_ORDERINGS = _weak_orderings(4)  # every relative order (with ties) of idle/approach/climb/take-off flows
 
 
+# optional parameters of get_SLS_equivalent_fuel_flow: None = omitted; first number = the documented default
+FFM2_Z = [None, 3.8, 3.0, 4.5]
+FFM2_PSL = [None, 101325.0, 103000.0, 1013.25]  # 1013.25: pressures given in hPa (Pamb is passed in hPa too)
+FFM2_TSL = [None, 288.15, 273.15, 300.0]
+FFM2_NENG = [None, 2, 1, 4]
+FFM2_STYLE = ['keyword', 'positional']
+
+
+def _trailing_none(*vals):
+    """Positional calls can only omit a trailing run of optional arguments."""
+    seen_none = False
+    for v in vals:
+        if v is None:
+            seen_none = True
+        elif seen_none:
+            return False
+    return True
+
+
 # in-place reuse of argument objects: (altitude of first fill, altitude of second fill)
 REUSE_ALT_PAIRS = [(0.0, 12000.0), (12000.0, 3000.0), (5000.0, 5000.0)]
 REUSE_N = 64
@@ -260,6 +279,19 @@ def sublattices(tier, seed):
             'name': 'cat: every relative order (with ties) of the four calibration flows (fuel-flow alphabet inside)',
             'axes': {'ranks(idle,approach,climb,takeoff)': [list(r) for r in FLOW_ORDERINGS], 'values_by_rank': ORDER_VALUES},
             'cases': [{'k': 'cat', 'ranks': list(r)} for r in FLOW_ORDERINGS],
+        }
+    )
+    palts = [0.0, 5000.0, NEXT(11000.0, 0.0), 11000.0, 12000.0, 25000.0] + ([2000.0, 8000.0, 10999.999, 11000.001, 18000.0] if tier == 'thorough' else [])
+    pmach = MACH if tier == 'thorough' else [0.0, 0.6, 0.95]
+    subs.append(
+        {
+            'name': 'ffm2-params: every optional parameter of the FFM2 correction (omitted / explicit default / two other values) x call style x altitude x Mach',
+            'axes': {'z': FFM2_Z, 'P_SL': FFM2_PSL, 'T_SL': FFM2_TSL, 'n_eng': FFM2_NENG, 'style': FFM2_STYLE, 'h': palts, 'm': pmach},
+            'cases': [
+                {'k': 'ffm2p', 'z': z, 'P_SL': ps, 'T_SL': ts, 'n_eng': ne, 'style': st, 'h': h, 'm': m}
+                for z in FFM2_Z for ps in FFM2_PSL for ts in FFM2_TSL for ne in FFM2_NENG for st in FFM2_STYLE for h in palts for m in pmach
+                if not (st == 'positional' and None in (z, ps, ts, ne) and not _trailing_none(z, ps, ts, ne))
+            ],
         }
     )
     rcert = list(CERT_ALL) if tier == 'thorough' else CERT_QUICK
@@ -743,6 +775,44 @@ def _run_cat(case):
                 acc.add('element-dependence', f'category at ff={flows[j]!r}: alone {c0}, in vector {cat_list[j]} ff_cal={ffcal}')
     order = 'idle-thr<=climb-thr' if low <= high else 'idle-thr>climb-thr'
     return {'outcome': f'cat:{order}:{len(set(case["ranks"]))}-distinct-flows', 'nontrivial': acc.compared > 0, 'violations': acc.v}
+
+
+# --------------------------------------------------------------------------- optional parameters
+
+
+def _run_ffm2p(case):
+    """FFM2 correction with every combination of its optional parameters; the reference is
+    evaluated with the same parameter values (documented defaults where omitted)."""
+    S = _STATE
+    acc = _Acc()
+    h, m = float(case['h']), float(case['m'])
+    z, ps, ts, ne = case['z'], case['P_SL'], case['T_SL'], case['n_eng']
+    t = R.isa_temperature(h)
+    p_pa = R.isa_pressure(h)
+    hpa = ps is not None and ps < 2000.0
+    p = p_pa / 100.0 if hpa else p_pa  # ambient pressure in the same unit as the reference pressure
+    fin = np.array([0.0, 0.05, 0.22, 0.686, 1.3, 2.062, 2.586, 3.1, 7.5])
+    n = len(fin)
+    pv, tv, mv = np.full(n, p), np.full(n, t), np.full(n, m)
+    f = S['eutils'].get_SLS_equivalent_fuel_flow
+    if case['style'] == 'keyword':
+        kw = {k: v for k, v in (('z', z), ('P_SL', ps), ('T_SL', ts), ('n_eng', ne)) if v is not None}
+        ok, w = _call(acc, 'ffm2-raised', f'FFM2 kwargs={kw}', f, fuel_flow=fin, Pamb=pv, Tamb=tv, mach_number=mv, **kw)
+    else:
+        extra = [v for v in (z, ps, ts, ne) if v is not None]
+        ok, w = _call(acc, 'ffm2-raised', f'FFM2 positional extra={extra}', f, fin, pv, tv, mv, *extra)
+    if ok:
+        w = np.asarray(w, float)
+        if w.shape != (n,):
+            acc.add('shape', f'FFM2 output shape {w.shape}')
+        else:
+            acc.sane('FFM2 output', w)
+            rz, rps, rts, rne = (3.8 if z is None else z), (101325.0 if ps is None else ps), (288.15 if ts is None else ts), (2 if ne is None else ne)
+            for j in range(n):
+                exp = R.ffm2_sls_fuel_flow(float(fin[j]), p, t, m, rne, rz, rps, rts)
+                acc.cmp('ffm2-params', lambda j=j: f'Wf_SL(ff={float(fin[j])!r}, Pamb={p!r}, Tamb={t!r}, M={m}, z={z}, P_SL={ps}, T_SL={ts}, n_eng={ne}, {case["style"]})', w[j], exp)
+    nd = sum(v is not None for v in (z, ps, ts, ne))
+    return {'outcome': f'ffm2-params:{case["style"]}:{nd}-given', 'nontrivial': acc.compared > 0, 'violations': acc.v}
 
 
 # --------------------------------------------------------------------------- in-place reuse
@@ -1234,7 +1304,7 @@ def _run_meem(case):
 
 # --------------------------------------------------------------------------- dispatch
 
-_RUN = {'reuse': _run_reuse, 'cat': _run_cat, 'isa': _run_isa, 'chain': _run_chain, 'sox': _run_sox, 's11': _run_s11, 'foa3': _run_foa3, 'meem': _run_meem}
+_RUN = {'ffm2p': _run_ffm2p, 'reuse': _run_reuse, 'cat': _run_cat, 'isa': _run_isa, 'chain': _run_chain, 'sox': _run_sox, 's11': _run_s11, 'foa3': _run_foa3, 'meem': _run_meem}
 
 
 def run_case(case):
